@@ -105,6 +105,11 @@ def _plain(v):
     return v
 
 
+def c19_despecial(doc):
+    from .c19 import _despecial
+    return _despecial(doc)
+
+
 def observe(fn):
     o = lib.outcome(fn)
     if o[0] == 'err':
@@ -280,6 +285,24 @@ def run(case):
             if got[0] != 'ok' or got[1] != want:
                 if _plain(base[2]):
                     vio.append({'mech': 'key-include-differs', 'what': f'{key}: !include [..] -> {util.short(got[1:], 300)} but the merged content is {util.short(_plain(base[2]), 300)}; {what}'})
+        # ---------------- 'key: !include f' (exactly one file, exactly one document) met by an older stage that already has content
+        #                  at that key: the file's content is merged on its own first (its !append / !extend become plain lists, a
+        #                  !notnew document that cannot stand alone fails), then placed under the key
+        lone = paths[-1]
+        pre_doc = emit.strip_flags(c19_despecial(case['doc0']))
+        pre_text = emit.emit(M([[case['key'], pre_doc]]), 'flow')
+        m12 = os.path.join(mdir, 'master12.yaml')
+        write(m12, pre_text + f'---\n{case["key"]}: !include {rel(mdir, lone)}\n')
+        got12 = observe(lambda: Config.build(m12))
+        # the same with an empty mapping document merged behind it (neutral by the merge laws): a stream of two documents
+        write(os.path.join(mdir, 'emptymap.yaml'), '{}\n')
+        m13 = os.path.join(mdir, 'master13.yaml')
+        write(m13, pre_text + f'---\n{case["key"]}: !include [{rel(mdir, lone)}, emptymap.yaml]\n')
+        got13 = observe(lambda: Config.build(m13))
+        feats.append('variant_single_file_under_existing_key')
+        root_tagged = texts[-1].startswith('--- !') or texts[-1].lstrip().startswith('!')      # (the flags of a merged root are those of the last document: '{}' is not neutral for them)
+        if not root_tagged and got12[:2] != got13[:2]:
+            vio.append({'mech': 'single-file-key-include-differs', 'what': f'{pre_text!r} then {case["key"]}: !include <one file> -> {util.short(got12[1:], 300)}; with an empty mapping document included behind it -> {util.short(got13[1:], 300)}; {what}'})
         # ---------------- look-up order: decoys in the working directory
         if case['decoy_mode'] != 'none' and base[0] == 'ok':
             names = [f['name'] for f in case['files']]
